@@ -25,6 +25,7 @@ import RosuModel.Model.ManiaPatternWire
 import RosuModel.Model.ConvOsuWire
 import RosuModel.Model.ConvCatchWire
 import RosuModel.Model.PipelineCatchWire
+import RosuModel.Model.PipelineManiaConvertWire
 import RosuModel.Model.SkillWire
 import RosuModel.Model.TaikoPreWire
 import RosuModel.Model.PipelineWire
@@ -104,6 +105,8 @@ def handle (line : String) : String :=
   | ["LTT", start, dur, ns] => ConvOsu.Wire.handleLTT start dur ns
   | ["CCONV", hr, refl, objs] => ConvCatch.Wire.handleCCONV hr refl objs
   | ["TKPRE", clock, take, objs] => TaikoPre.handleTKPRE clock take objs
+  | ["PIPE", "maniac", keys, hp, cs, od, ar, cd, clock, take, ho, inv, gidx, timing, objs] =>
+    PipelineManiaConvert.Wire.handlePIPEMC keys hp cs od ar cd clock take ho inv gidx timing objs
   | ["PIPE", "catch", version, sm, tr, hr, refl, cs, ar, clock, conv, take, gidx, objs] =>
     PipelineCatch.Wire.handlePIPEC version sm tr hr refl cs ar clock conv take gidx objs
   | _ => "bad-op"
